@@ -435,7 +435,7 @@ func (p *parser) method(recv SVal, name string, as []SVal) SVal {
 
 var rawFns = map[string]bool{"addr": true, "idx": true, "lookup": true, "slice": true, "apply": true, "tuple": true, "deref": true,
 	"toint": true, "idiv": true, "imod": true, "shl": true, "shr": true, "and": true, "or": true, "andnot": true,
-	"maxint": true, "minint": true, "range": true, "lookupok": true}
+	"range": true, "lookupok": true}
 
 func (p *parser) primary() SVal {
 	x, s := p.e.X, p.e.X.S
